@@ -1,4 +1,5 @@
 import PwVerif.Model.Signal
+import PwVerif.Model.Signal2
 import PwVerif.Model.Proto
 /-!
 Line-protocol driver for C02.
@@ -9,6 +10,9 @@ Trigger level (one all-of trigger `acc` and one any-of trigger `any`, emitter ch
   tconnect <any|acc> <chan>     tdisconnect <any|acc> <chan>     tdisconnectall <any|acc>
   arrive <any|acc> <chan>       the trigger is called with that emitter          poke <any|acc>
   emit <chan>                   the emitter is called: it calls whatever it is connected to
+  script <act> …                top-level acts on the all-of trigger, act = A<n>|P|C<n>|D<n> [!] [ "[" act … "]" ]:
+                                `!` the callback raises, `[ … ]` what it does on the trigger while it runs; one line per act:
+                                `evs <performed> | fires <flags> | raised <0|1> | acc [conns] [received]`
  every one of them answers  `any <fires> [conns] | acc <fires> [conns] [received, sorted]`
 
 Flow level (children of one composite are numbers, an emitting channel is 4*node + 0 ran|1 failed|2 true|3 false):
@@ -20,8 +24,11 @@ Flow level (children of one composite are numbers, an emitting channel is 4*node
   starters <i> …
   mconfig <P|R> <ui node> …                     the composite is a macro: its constructor's treatment of a hand-made wiring
   pre <sig> <node>                              child's all-of trigger heard this emitter before the run (stale memory)
+  owner <i> <0|1>   macro <m>   mstarters <i> …   two composites: children of the macro child m of the workflow
+  run2 <fuel> <steps>                           the workflow with its hand-wired macro child (two queues)
   quiet <i>                                     the wrapped function of child i is not instrumented: leave it out of `calls`
   run <fuel>                                    prints the observations of one composite run
+  rerun <fuel> <healed child> …                 the same composite runs again after `failed` was cleared on these children
 -/
 open PwVerif PwVerif.Signal PwVerif.Proto
 
@@ -40,12 +47,16 @@ structure St where
   starters : List Nat
   quiet : List Nat
   rec0 : Nat → List Label
+  last : Option (S Store)      -- how the previous run of this composite ended
+  owner : Nat → Nat            -- two composites: 0 = child of the workflow, 1 = child of its macro child
+  macroNode : Nat
+  mStarters : List Nat
 
 def init : St :=
   { lab := id, acc := { conns := [], received := [] }, anyc := [],
     n := 0, kinds := fun _ => .term 0, cache := fun _ => false, failAt := fun _ => [],
     slots := fun _ => [], w := Wiring.empty, starters := [], quiet := [],
-    rec0 := fun _ => [] }
+    rec0 := fun _ => [], last := none, owner := fun _ => 0, macroNode := 0, mStarters := [] }
 
 def insertSorted (x : Nat) : List Nat → List Nat
   | [] => [x]
@@ -106,10 +117,11 @@ def modifyNth {α} (l : List α) (k : Nat) (f : α → α) : List α :=
   | a :: as, 0 => f a :: as
   | a :: as, k + 1 => a :: modifyNth as k f
 
-def runObs (s : St) (fuel : Nat) : List String :=
+def runFrom (s : St) (fuel : Nat) (s0 : S Store) : S Store :=
+  compositeRun (nodeSem s.nodes) s.fin.toGraph fuel s0
+
+def runObs (s : St) (r : S Store) : List String :=
   let f := s.fin
-  let g := f.toGraph
-  let r := compositeRun (nodeSem s.nodes) g fuel (S.init Store.init s.rec0)
   let st := r.store
   let ids := List.range s.n
   [ s!"wf {b2n f.check}",
@@ -124,6 +136,43 @@ def runObs (s : St) (fuel : Nat) : List String :=
     "rec " ++ joinOrDash ((ids.filter fun i => !(s.w.accIn i).isEmpty).map fun i =>
       s!"{i}:{showNats (sortNats (r.received i))}") ]
 
+/-- script tokens: `A<n>` arrive, `P` poke, `C<n>` connect, `D<n>` disconnect; then optionally `!` (the callback
+raises) and `[` acts `]` (what the callback does on the trigger while it runs) -/
+def parseEvTok (w : String) : Option Ev :=
+  if w = "P" then some .poke
+  else if w.startsWith "A" then (w.drop 1).toNat?.map Ev.arrive
+  else if w.startsWith "C" then (w.drop 1).toNat?.map Ev.connect
+  else if w.startsWith "D" then (w.drop 1).toNat?.map Ev.disconnect
+  else none
+
+def showEvTok : Ev → String
+  | .poke => "P"
+  | .arrive e => s!"A{e}"
+  | .connect e => s!"C{e}"
+  | .disconnect e => s!"D{e}"
+
+/-- acts up to the closing bracket (or the end at depth 0); returns the rest after the bracket -/
+partial def parseActs (depth : Nat) : List String → Option (List Act × List String)
+  | [] => if depth = 0 then some ([], []) else none
+  | "]" :: rest => if depth = 0 then none else some ([], rest)
+  | w :: rest =>
+    match parseEvTok w with
+    | none => none
+    | some ev =>
+      let (boom, rest1) := match rest with
+        | "!" :: r => (true, r)
+        | r => (false, r)
+      let inner? : Option (List Act × List String) := match rest1 with
+        | "[" :: r => parseActs (depth + 1) r
+        | r => some ([], r)
+      match inner? with
+      | none => none
+      | some (inner, rest2) =>
+        match parseActs depth rest2 with
+        | none => none
+        | some (more, rest3) => some (Act.mk ev boom inner :: more, rest3)
+
+def flagStr (l : List Bool) : String := String.join (l.map fun b => if b then "1" else "0")
 def parseTrig : String → Option Bool
   | "any" => some false
   | "acc" => some true
@@ -182,6 +231,19 @@ def step (s : St) (ws : List String) : St × List String :=
       let fa := callsFrom s.anyc e
       let s' := { s with acc := a }; (s', [tline s' fa (b2n f)])
     | none => (s, ["bad-op"])
+  | "script" :: toks =>
+    -- the all-of trigger driven by acts whose callbacks raise / come back (pinned: reset before the callback)
+    match parseActs 0 toks with
+    | some (acts, []) =>
+      let rec go (a : Acc) (acts : List Act) (out : List String) : Acc × List String :=
+        match acts with
+        | [] => (a, out)
+        | x :: rest =>
+          let t := execTop true s.lab 500 a [x]
+          go t.acc rest (out ++ [s!"evs {joinOrDash (t.evs.map showEvTok)} | fires {flagStr t.fires} | raised {b2n t.raised} | acc {showNats t.acc.conns} {showNats (sortNats t.acc.received)}"])
+      let (a, out) := go s.acc acts []
+      ({ s with acc := a }, out)
+    | _ => (s, ["bad-op"])
   | ["node", i, k, c, fl] =>
     match i.toNat?, c.toNat?, parseFail fl with
     | some i, some c, some fl =>
@@ -241,6 +303,38 @@ def step (s : St) (ws : List String) : St × List String :=
       if sg < 4 * s.n && r < s.n then ({ s with rec0 := updF s.rec0 r (insertL sg (s.rec0 r)) }, [])
       else (s, ["bad-op"])
     | _, _ => (s, ["bad-op"])
+  | ["owner", i, o] =>
+    match i.toNat?, o.toNat? with
+    | some i, some o => if i < s.n && o ≤ 1 then ({ s with owner := updF s.owner i o }, []) else (s, ["bad-op"])
+    | _, _ => (s, ["bad-op"])
+  | ["macro", m] =>
+    match m.toNat? with
+    | some m => if m < s.n then ({ s with macroNode := m }, []) else (s, ["bad-op"])
+    | none => (s, ["bad-op"])
+  | "mstarters" :: l =>
+    match nats l with
+    | some l => if l.all (fun i => i < s.n && s.owner i == 1) then ({ s with mStarters := l }, []) else (s, ["bad-op"])
+    | none => (s, ["bad-op"])
+  | ["run2", fuel, steps] =>
+    -- the workflow with its hand-wired macro child: two queues (Model/Signal2.lean, the library's label trigger)
+    match fuel.toNat?, steps.toNat? with
+    | some fuel, some steps =>
+      let ids := List.range s.n
+      let two : Two := { g := s.fin.toGraph, owner := s.owner, macroNode := s.macroNode, mStarters := s.mStarters,
+                         mChildren := ids.filter fun i => s.owner i == 1 }
+      let r := runTwo labelTrig (nodeSem s.nodes) two fuel steps Store.init
+      let st := r.store
+      (s, [ s!"wf {b2n s.fin.check}",
+            s!"fired {showNats r.fired}",
+            "calls " ++ joinOrDash ((st.callLog.filter fun p => !s.quiet.contains p.1).map fun (i, a) =>
+              s!"{i}(" ++ ",".intercalate (a.map showVal) ++ ")"),
+            "out " ++ joinOrDash ((ids.filter (· != s.macroNode)).map fun i => s!"{i}={showVal (st.out i)}"),
+            s!"failed {showNats (ids.filter fun i => if i = s.macroNode then r.mFailed else st.failed i)}",
+            s!"errs {showNats (sortNats (dedup r.errs0))}",
+            s!"queue {r.q0.length} {r.q1.length}",
+            "rec " ++ joinOrDash ((ids.filter fun i => !(s.w.accIn i).isEmpty).map fun i =>
+              s!"{i}:{showNats (sortNats (r.mem i))}") ])
+    | _, _ => (s, ["bad-op"])
   | ["quiet", i] =>
     match i.toNat? with
     | some i => if i < s.n then ({ s with quiet := i :: s.quiet }, []) else (s, ["bad-op"])
@@ -251,8 +345,23 @@ def step (s : St) (ws : List String) : St × List String :=
     | none => (s, ["bad-op"])
   | ["run", fuel] =>
     match fuel.toNat? with
-    | some fuel => (s, runObs s fuel)
+    | some fuel =>
+      let r := runFrom s fuel (S.init Store.init s.rec0)
+      ({ s with last := some r }, runObs s r)
     | none => (s, ["bad-op"])
+  | "rerun" :: fuel :: healed =>
+    -- the composite runs again: the listed children had `failed` cleared; outputs, caches, attempt counters and the
+    -- all-of memories are what the previous run left; provenance, the call log shown and the queue start empty
+    match fuel.toNat?, nats healed, s.last with
+    | some fuel, some healed, some p =>
+      if healed.all (· < s.n) then
+        let st := p.store
+        let st' := { st with failed := fun i => if healed.contains i then false else st.failed i,
+                             execLog := [], doneLog := [], callLog := [] }
+        let r := runFrom s fuel (S.init st' p.received)
+        ({ s with last := some r }, "rerun" :: runObs s r)
+      else (s, ["bad-op"])
+    | _, _, _ => (s, ["bad-op"])
   | _ => (s, ["bad-op"])
 
 def main : IO Unit := Proto.run init step
